@@ -8,7 +8,7 @@ import pres_check as K
 EXTRA_VO = PC.EXTRA_VO
 TRUSTED_BASE = K.TRUSTED_COMMON + [
     "encryption sub-protocol modelled in coq/Model/Pres.v (SVenc / PVenc: hashed items c1, c2, r1, r2; a statement requesting scalar decryption needs the decryptable part) and coq/Model/Preds.v (honest prover, ElGamal in the exponent); the byte decomposition (32 byte ciphertexts, per-byte Schnorr proofs, 8-bit bulletproofs, weighted sum) is NOT modelled in Coq and is exercised on the implementation only",
-    "blind spot: the encrypt-and-decrypt proof (AES-GCM part, its own copy of the message generator) has no external deviating prover; it is exercised with honest holders and by mutation of finished proofs only (seed C10-f is not caught, DESIGN section 17)",
+    "the encrypt-and-decrypt proof (AES-GCM part, its own copy of the message generator) has a hand-written holder (harness/src/ops_vdec.rs, adapted from the demonstration of seed C10-f; repeats the transcript labels of create.rs and the proof builder) with four variants; not modelled in Coq",
     "decryption: theorem C10_decrypt_group (c2 - dk*c1 = gm*m for the extracted (m, k)); scalar / claim decryption (decrypt_scalar, decrypt_and_verify) checked on the implementation for every claim type and value class",
 ]
 ASSUMPTIONS = ["bulletproofs-bls soundness (each byte ciphertext opens to a value in 0..255), AES-GCM, no known discrete-log relation between message generator and encryption key",
@@ -122,11 +122,42 @@ def explore(ctx):
             elif x.get("verify") == "ok" and (x.get("scalar") != "signed" or not x.get("group_ok")):
                 failures.append({"class": None, "witness": True,
                                  "text": f"accepted although scalar decryption does not give the signed claim: byte decomposition '{variant}' ({s_['suite']}), decrypt_scalar -> {x.get('scalar')}", "case": case})
+    # (d) a hand-written holder for the encrypt-and-decrypt proof (harness/src/ops_vdec.rs): honest; the text of another claim
+    #     in the symmetric part; the same with a generator scaled so that H' * m' = H * m carried in the proof, hashed or not.
+    #     Any claim that decryption of an accepted presentation returns must be the signed one.
+    vd = []
+    pairs = [({"t": "h", "hex": b"John Doe".hex(), "pf": True}, {"t": "h", "hex": b"Mallory Roe".hex(), "pf": True}),
+             ({"t": "n", "v": "41"}, {"t": "n", "v": "17"}),
+             ({"t": "h", "hex": b"".hex(), "pf": True}, {"t": "h", "hex": b"x".hex(), "pf": True}),
+             ({"t": "n", "v": str(-2 ** 63 + 1)}, {"t": "n", "v": str(2 ** 63 - 1)})]
+    for k_, (cl, ot) in enumerate(pairs if tier == "thorough" else pairs[:2]):
+        for suite in ("bbs", "ps"):
+            for gen in ("std", "hash"):
+                vd.append({"op": "f_vdec", "suite": suite, "gen": gen, "claim": 1, "claims": [{"t": "r", "s": "id-1"}, cl, {"t": "n", "v": "5"}], "other": ot})
+    dres = C.run_exec_parallel(vd, nproc=16) if len(vd) >= 64 else [C.run_exec([o])[0] for o in vd]
+    hist["encrypt_and_decrypt_holder"] = {}
+    for s_, r in zip(vd, dres):
+        if r.get("r") != "ok":
+            failures.append({"class": None, "witness": False, "text": f"harness failure {json.dumps(r)[:200]}", "case": s_})
+            continue
+        for variant, x in r["variants"].items():
+            key = f"{variant}: verify={x.get('verify')} decrypt={x.get('decrypt')}"
+            hist["encrypt_and_decrypt_holder"][key] = hist["encrypt_and_decrypt_holder"].get(key, 0) + 1
+            case = dict(s_, variant=variant, result=x)
+            if x.get("verify") == "panic":
+                failures.append({"class": None, "witness": True, "text": f"panic on the {variant} encrypt-and-decrypt holder", "case": case})
+            elif variant == "honest":
+                if x.get("verify") != "ok" or x.get("decrypt") != "signed":
+                    failures.append({"class": None, "witness": False,
+                                     "text": f"calibration: the hand-written encrypt-and-decrypt holder following the protocol is not accepted / does not decrypt ({x}); holder and library have drifted apart", "case": case})
+            elif x.get("verify") == "ok" and x.get("decrypt") == "other":
+                failures.append({"class": None, "witness": True,
+                                 "text": f"an accepted presentation decrypts (decrypt_and_verify) to a claim that was not signed: holder variant '{variant}' ({s_['suite']}, generator {s_['gen']})", "case": case})
     failures += C.domain_generator_pin()
     return {
-        "evaluations": len(res) + sum(len(r.get("decrypt", [])) for r in impl) + 4 * len(vb),
+        "evaluations": len(res) + sum(len(r.get("decrypt", [])) for r in impl) + 4 * len(vb) + 4 * len(vd),
         "distinct_nontrivial": distinct + len(d2),
-        "rule": "cases = (a) external prover with an encryption statement (honest; substitute plaintext with shared / independent nonce; proof omitted; blinder response altered; decryptable part omitted although the statement requests scalar decryption) evaluated by the Coq verifier model and Presentation::verify; (b) Presentation::create with encryption statements (scalar decryption requested or not, standard and hashed generators) and encrypt-and-decrypt statements on claims of every type incl. scalars 0, 1, 255, 256, r-1, r-2, 2^248 and numbers MIN / -1 / 0 / MAX: decrypt() = generator * signed scalar, decrypt_scalar = signed scalar, decrypt_and_verify = signed claim; distinct by (suite, claim, generator, flag)",
+        "rule": "cases = (a) external prover with an encryption statement (honest; substitute plaintext with shared / independent nonce; proof omitted; blinder response altered; decryptable part omitted although the statement requests scalar decryption) evaluated by the Coq verifier model and Presentation::verify; (b) Presentation::create with encryption statements (scalar decryption requested or not, standard and hashed generators) and encrypt-and-decrypt statements on claims of every type incl. scalars 0, 1, 255, 256, r-1, r-2, 2^248 and numbers MIN / -1 / 0 / MAX: decrypt() = generator * signed scalar, decrypt_scalar = signed scalar, decrypt_and_verify = signed claim; (c) / (d) hand-written holders for the byte decomposition and for the encrypt-and-decrypt proof (honest calibration variant; other bytes / other text; scaled generator carried in the proof); distinct by (suite, claim, generator, flag)",
         "samples": [{"suite": x["scn"]["suite"], "stmts": x["scn"]["stmts"], "dev": x["scn"]["dev"], "impl": x["impl"], "model": x["model"]} for x in res[:60:13]],
         "histograms": hist,
         "failures": failures,
